@@ -9,6 +9,7 @@
 
 #include "atomic_wrapper.h"
 #include "clock.h"
+#include "verif_hook.h"
 
 namespace yakushima {
 
@@ -33,13 +34,16 @@ public:
         bool desired{};
         for (;;) {
             for (size_t i = 1;; ++i) {
+                YAKUSHIMA_VERIF_YIELD(Y_LOAD | Y_CAT_NODE, &root_lock_);
                 expected = root_lock_.load(std::memory_order_acquire);
                 if (expected) {
+                    YAKUSHIMA_VERIF_YIELD(Y_SPIN | Y_CAT_NODE, &root_lock_);
                     if (i >= 10) { break; }
                     _mm_pause();
                     continue;
                 }
                 desired = true;
+                YAKUSHIMA_VERIF_YIELD(Y_CAS | Y_CAT_NODE, &root_lock_);
                 if (root_lock_.compare_exchange_weak(expected, desired,
                                                 std::memory_order_acq_rel,
                                                 std::memory_order_acquire)) {
@@ -51,8 +55,15 @@ public:
     }
 
     void root_unlock() {
+        YAKUSHIMA_VERIF_YIELD(Y_STORE | Y_CAT_NODE, &root_lock_);
         root_lock_.store(false, std::memory_order_release);
     }
+
+#ifdef YAKUSHIMA_VERIF
+    [[nodiscard]] bool verif_root_locked() const {
+        return root_lock_.load(std::memory_order_acquire);
+    }
+#endif
 
 private:
     base_node* root_{nullptr};
